@@ -104,7 +104,10 @@ def showClient (c : Client) : String :=
   let latest := match c.latest with | some b => showBlk b | none => "-"
   let wits := if c.witnesses.isEmpty then "-" else ",".intercalate (c.witnesses.map fun w => toString w.id)
   let ev := if c.evidence.isEmpty then "-" else
-    ",".intercalate (c.evidence.map fun e => s!"{e.1}:{e.2.conflicting}:{e.2.commonHeight}")
+    ",".intercalate (c.evidence.map fun e =>
+      let byz := (sortDesc (e.2.byzantine.map fun p => p.1 * 1000 + p.2)).reverse
+      let bs := if byz.isEmpty then "-" else "+".intercalate (byz.map fun x => s!"{x / 1000}/{x % 1000}")
+      s!"{e.1}:{e.2.conflicting}:{e.2.commonHeight}:{e.2.totalPower}:{e.2.timestamp}:{bs}")
   let calls := ",".intercalate ((c.primary :: c.witnesses).map fun p => s!"{p.id}:{c.calls p.id}")
   s!"store={store} size={c.store.size} latest={latest} prim={c.primary.id} wits={wits} ev={ev} calls={calls}"
 
